@@ -11,10 +11,12 @@
 (* voxel per step (so that the search parallelises); the interval          *)
 (* evaluator is a sound oracle over the *closed* tile box under four       *)
 (* policies (always exact, never, root only, leaf only).                   *)
-(* Invariants: Correct - the merged depth of every column that is not      *)
-(* negative just beyond the top of the grid is 1 + the index of its        *)
-(* highest negative voxel (0 if none); NormalAtHit - the gradient stored   *)
-(* for such a surface column was requested at exactly that voxel;          *)
+(* Invariants: Correct - the merged depth of every column is 1 + the index *)
+(* of its highest negative voxel (0 if none); ClampedAbove - unless the    *)
+(* column has a negative voxel above the grid inside the overhang of the   *)
+(* last root tile, in which case it is the grid depth; NormalAtHit - the   *)
+(* gradient stored for a surface column that is not negative at or beyond  *)
+(* the top of the grid was requested at exactly that voxel;                *)
 (* AssertsOk - the code's assert!(depth < z) never fires.                  *)
 (* Clamp = "ge-d1" is the merge as it was (saturate when out >= D-1: the   *)
 (* defect repaired in the repository), "gt-d" the repaired one (saturate   *)
@@ -121,6 +123,9 @@ RECURSIVE Top(_, _)
 Top(p, z) == IF z < 0 THEN 0 ELSE IF <<p[1], p[2], z>> \in neg THEN z + 1 ELSE Top(p, z - 1)
 Height(p) == Top(p, D - 1)
 AboveGrid(p) == \E z \in D..ZTop : <<p[1], p[2], z>> \in neg
+\* negative inside the overhang of the last root tile (voxel indices D .. ZTop-1; the lattice plane z = ZTop only
+\* belongs to the closed boxes the interval oracle looks at, no voxel of the tile lies on it)
+Over(p) == \E z \in D..(ZTop - 1) : <<p[1], p[2], z>> \in neg
 
 VoxSeq == [i \in 1..(T0*T0*(ZTop+1)) |-> <<(i-1) % T0, ((i-1) \div T0) % T0, (i-1) \div (T0*T0)>>]
 NV == T0*T0*(ZTop+1)
@@ -141,7 +146,10 @@ GenSpec == GenInit /\ [][GenNext]_vars
 Result == Root([p \in Cols |-> 0], KMax - 1, TRUE)
 AssertsOk == idx <= NV \/ Result[2]
 Correct == idx <= NV \/ LET image == Merge(Result[1]) IN
-           \A p \in Cols : (p[1] < W /\ p[2] < H /\ ~AboveGrid(p)) => image[p][1] = Height(p)
+           \A p \in Cols : (p[1] < W /\ p[2] < H /\ ~Over(p)) => image[p][1] = Height(p)
+\* a hit above the grid (inside the overhang of the last root tile) is reported clamped to the grid depth
+ClampedAbove == idx <= NV \/ LET image == Merge(Result[1]) IN
+           \A p \in Cols : (p[1] < W /\ p[2] < H /\ Over(p)) => image[p][1] = D
 NormalAtHit == idx <= NV \/ LET image == Merge(Result[1]) IN
            \A p \in Cols : (p[1] < W /\ p[2] < H /\ ~AboveGrid(p) /\ Height(p) > 0) => image[p][2] = Height(p) - 1
 \* one GEN line per voxel set: the set as a 0/1 list in VoxSeq order (x fastest, then y, then z; T0 x T0 x (ZTop+1)
